@@ -5,7 +5,7 @@
    prefix from FStart up to the await, polls tokio's Read future (a fresh ReadBuf::new(dest) each poll, src/io/util/read.rs),
    and on Ready runs the translated suffix and, if the loop continues, the prefix again inside the same poll.
    Dropping the future forgets `fut` and keeps buffer and reader. *)
-From FB Require Import Sem.Base Sem.ReadBuf Model.Fb.
+From FB Require Import Sem.Base Sem.ReadBuf Sem.Async Model.Fb.
 Open Scope Z_scope.
 
 Section ASYNC.
@@ -55,54 +55,31 @@ Definition poll_read_future (v : view) : fb * RS -> rdp * (fb * RS) := fun w =>
   | (ARPanic, r') => (RdPanic, (s, r'))
   end.
 
-Inductive fut := FStart | FAwait (v : view).
 Definition lift_s {B} (m : M fb B) : MW B := fun w =>
   match m (fst w) with Val a s => Val a (s, snd w) | Panic s => Panic (s, snd w) end.
 
-(* one poll of the read_frame future; fuel bounds the loop iterations inside this poll *)
-Fixpoint arf_poll (fuel : nat) (df : list Z -> dres) (f : fut) : MW (fut * poll (fueled frame_res)) :=
-  match fuel with
-  | O => ret (f, PReady OutOfFuel)
-  | S fu =>
-    p_1 <- (match f with FAwait v => ret (inr v) | FStart => lift_s (arf_pre df) end) ;;
-    match p_1 with
-    | inl r => ret (FStart, PReady (Done r))
-    | inr v => fun w =>
-        match poll_read_future v w with
-        | (RdPending, w') => Val (FAwait v, PPending) w'
-        | (RdPanic, w') => Panic w'
-        | (RdReady q, w') =>
-            match lift_s (arf_post q) w' with
-            | Val (Some r) w2 => Val (FStart, PReady (Done r)) w2
-            | Val None w2 => arf_poll fu df FStart w2
-            | Panic w2 => Panic w2
-            end
-        end
-    end
+(* ---- the futures: instances of the modelled lowering (Sem/Async.v `drive`) ---- *)
+Definition rf_pre (df : list Z -> dres) : fb * RS -> res (fb * RS) (frame_res + view) := lift_s (arf_pre df).
+Definition rf_await (v : view) (w : fb * RS) : awaited (fb * RS) (io Z) :=
+  match poll_read_future v w with
+  | (RdPending, w') => AwPending w'
+  | (RdReady q, w') => AwReady q w'
+  | (RdPanic, w') => AwPanic w'
   end.
+Definition rf_post (q : io Z) : fb * RS -> res (fb * RS) (option frame_res) := lift_s (arf_post q).
+(* AsyncFixedBuf::read_frame driven to completion: at most n polls of the reader; `cancel` = which pending points drop the future *)
+Definition arf_drive (n : nat) (cancel : list bool) (df : list Z -> dres) (w : fb * RS) : out (fb * RS) frame_res :=
+  drive (rf_pre df) rf_await rf_post n cancel Start w.
 
-(* ---- copy_once_from ---- *)
+(* ---- copy_once_from: the same shape without a loop (the suffix always returns) ---- *)
 Definition aco_pre : M fb (io Z + view) :=
   writable_1 <- writable ;;
   if vlen writable_1 =? 0 then ret (inl (Err InvalidData)) else ret (inr writable_1).
-Definition aco_post (q_2 : io Z) : M fb (io Z) :=
+Definition aco_post (q_2 : io Z) : M fb (option (io Z)) :=
   match q_2 with
-  | Err e => ret (Err e)
-  | Ok num_read => wrote chk num_read ;;; ret (Ok num_read)
+  | Err e => ret (Some (Err e))
+  | Ok num_read => wrote chk num_read ;;; ret (Some (Ok num_read))
   end.
-Definition aco_poll (f : fut) : MW (fut * poll (io Z)) :=
-  p_1 <- (match f with FAwait v => ret (inr v) | FStart => lift_s aco_pre end) ;;
-  match p_1 with
-  | inl r => ret (FStart, PReady r)
-  | inr v => fun w =>
-      match poll_read_future v w with
-      | (RdPending, w') => Val (FAwait v, PPending) w'
-      | (RdPanic, w') => Panic w'
-      | (RdReady q, w') =>
-          match lift_s (aco_post q) w' with
-          | Val r w2 => Val (FStart, PReady r) w2
-          | Panic w2 => Panic w2
-          end
-      end
-  end.
+Definition aco_drive (n : nat) (cancel : list bool) (w : fb * RS) : out (fb * RS) (io Z) :=
+  drive (lift_s aco_pre) rf_await (fun q => lift_s (aco_post q)) n cancel Start w.
 End ASYNC.
